@@ -108,6 +108,8 @@ def shape_key(k):
     snip = " | ".join(parts[2:])
     # `a op= b` and `a op b` raise the same obligation (its kind names the operator): compound assignment is written as the plain operator
     snip = re.sub(r"(<<|>>|[-+*/%&|^])=(?!=)", r"\1", snip)
+    # a lossless conversion spelled `u64::from(x)` / `x.into()` raises the same obligations as `x as u64`
+    snip = re.sub(r"\b([iu](?:8|16|32|64|128|size))::from\(([A-Za-z_][A-Za-z0-9_.]*)\)", r"\2 as \1", snip)
     snip = re.sub(r"[A-Za-z_][A-Za-z0-9_]*", lambda m: m.group(0) if (m.group(0) in _KEEP_WORDS or m.group(0)[0].isupper()) else "_", snip)
     return " | ".join(parts[:2] + [snip])
 
